@@ -24,4 +24,4 @@ Angle to explore for this particular assignment (pick something in this area, be
 - `patch.diff`: output of `git -C {wt} diff -- pyttb` (only source changes under pyttb/);
 - `demo.py`;
 - `meta.json`: {{"property": "{pid}", "summary": "...one sentence...", "needs": "...what specific input/sequence is needed to manifest...", "files": [...], "tests_pass": true}}.
-Verify yourself: run the test suite with the change (208 passed), run demo.py with the change (exit 1) and against the pristine tree (`git -C {wt} stash; run; git -C {wt} stash pop`, exit 0). Leave the change applied in the worktree when you finish. In your final message: the one-sentence summary, what is needed to manifest it, and the outputs of those three runs.''')
+Verify yourself: run the test suite with the change (208 passed), run demo.py with the change (exit 1) and against the pristine tree (do NOT use `git stash` — the stash is shared between worktrees and other people use it concurrently; instead `git -C {wt} diff -- pyttb > /tmp/{key}.p; git -C {wt} apply -R /tmp/{key}.p; run; git -C {wt} apply /tmp/{key}.p`, exit 0). Leave the change applied in the worktree when you finish. In your final message: the one-sentence summary, what is needed to manifest it, and the outputs of those three runs.''')
